@@ -35,6 +35,10 @@ func (c10) Gen(r *rand.Rand, tier string, run int) *core.Case {
 	c.Params["handlers"] = 1 + r.IntN(4)
 	c.Params["small"] = 1 + r.IntN(3)
 	c.Params["hseed"] = r.IntN(1 << 20)
+	// sends that fail on another, dead connection of the same process, before
+	// and while the senders are at work (what is shared between endpoints -
+	// buffers, pools - must not suffer)
+	c.Params["doomed"] = []int{0, 0, 2, 5}[r.IntN(4)]
 	sizes := []int{0, 0, 1, 3, 27, 28, 29, 100, 255, 600, 600, 5000, 20000, 70000}
 	if c.Net.ReadMode == "byte" || c.Net.ReadMode == "tiny" || c.Net.Capacity == 16 {
 		sizes = sizes[:11]
@@ -139,6 +143,27 @@ func (c10) Run(c *core.Case, env *core.Env) {
 		by[op.Actor] = append(by[op.Actor], op)
 	}
 	var wg sync.WaitGroup
+	if n := c.P("doomed", 0); n > 0 {
+		zzsim.SetNode("sender")
+		da, db := simnet.BufferedPair("sender", "nobody")
+		dead := net.ConnEndPoint(da)
+		zzsim.SetNode("harness")
+		db.Close()
+		failing := func(k int) {
+			for i := 0; i < k; i++ {
+				hdr := net.NewHeader(net.Call, 99, 99, 99, uint32(i))
+				if dead.Send(net.NewMessage(hdr, bytes.Repeat([]byte{0xEE}, 40+i))) != nil {
+					env.Probe("send-failed-on-dead-connection")
+				}
+			}
+		}
+		failing(1)
+		wg.Add(1)
+		go func() {
+			defer wg.Done()
+			failing(n)
+		}()
+	}
 	for _, s := range actors {
 		wg.Add(1)
 		go func(s int) {
